@@ -121,6 +121,10 @@ pub struct BridgeSpec {
     /// the k-th flush call fails
     pub flush_err_at: Option<u8>,
     pub shutdown: LS,
+    /// use the default entry point `into_copy_bidirectional` (the local side is a plain AsyncRead + AsyncWrite, buffered by
+    /// the crate itself) instead of `into_copy_bidirectional_with_buf`
+    #[serde(default)]
+    pub plain: bool,
 }
 
 #[derive(Clone, Debug, Hash, PartialEq, Eq, Serialize, Deserialize)]
@@ -731,10 +735,17 @@ pub fn spawn_end(sp: &Spawner, keep: &Keeper, side: Side, s: MuxStream, stream: 
     if let Some(b) = keep.1.iter().find(|b| b.stream as usize == stream && b.end as usize == end) {
         let local = ScriptedLocal::new(b.clone(), log.clone(), parking.clone());
         let log2 = log.clone();
+        let plain = b.plain;
         sp.spawn(format!("s{stream}e{end}bridge"), TaskKind::StreamUser(side), async move {
-            let fut = s.into_copy_bidirectional_with_buf(local);
-            let mut fut = std::pin::pin!(fut);
-            let r = fut.as_mut().await;
+            let r = if plain {
+                let fut = s.into_copy_bidirectional(local);
+                let mut fut = std::pin::pin!(fut);
+                fut.as_mut().await
+            } else {
+                let fut = s.into_copy_bidirectional_with_buf(local);
+                let mut fut = std::pin::pin!(fut);
+                fut.as_mut().await
+            };
             log2.app(AppEv::BridgeDone { stream, result: r.map_err(|e| err_kind(&e)) });
             // the completed bridge owns the stream: it is dropped with the future (when this task ends)
             log2.app(AppEv::Dropped { stream, end });
@@ -793,8 +804,21 @@ impl ScriptedLocal {
 }
 
 impl AsyncRead for ScriptedLocal {
-    fn poll_read(self: Pin<&mut Self>, _cx: &mut std::task::Context<'_>, _buf: &mut ReadBuf<'_>) -> Poll<std::io::Result<()>> {
-        unreachable!("the bridge uses AsyncBufRead only")
+    /// used by the default entry point, which wraps the local side in its own buffered reader
+    fn poll_read(self: Pin<&mut Self>, cx: &mut std::task::Context<'_>, buf: &mut ReadBuf<'_>) -> Poll<std::io::Result<()>> {
+        let me = self.get_mut();
+        let n = {
+            let data = match Pin::new(&mut *me).poll_fill_buf(cx) {
+                Poll::Ready(Ok(d)) => d,
+                Poll::Ready(Err(e)) => return Poll::Ready(Err(e)),
+                Poll::Pending => return Poll::Pending,
+            };
+            let n = data.len().min(buf.remaining());
+            buf.put_slice(&data[..n]);
+            n
+        };
+        Pin::new(me).consume(n);
+        Poll::Ready(Ok(()))
     }
 }
 
